@@ -307,8 +307,16 @@ func (s srcSpec) build() *builtSource {
 	return bs
 }
 
-func genSource(t *rapid.T) srcSpec {
+func genSource(t *rapid.T) srcSpec { return genSourceBiased(t, false) }
+
+// genSourceBiased: with streamBias two in three sources are CAS buffers
+// backed by a reader or a chunk reader, the kinds whose stream clones
+// really share one underlying stream.
+func genSourceBiased(t *rapid.T, streamBias bool) srcSpec {
 	s := srcSpec{kind: rapid.IntRange(0, nKinds-1).Draw(t, "src/kind")}
+	if streamBias && rapid.IntRange(0, 2).Draw(t, "src/forceStream") > 0 {
+		s.kind = kCASReader + rapid.IntRange(0, 1).Draw(t, "src/streamKind")
+	}
 	// Every second CAS source gets the kind that actually streams.
 	if s.kind == kCASBytes && rapid.Bool().Draw(t, "src/preferStream") {
 		s.kind = kCASReader + rapid.IntRange(0, 1).Draw(t, "src/stream")
